@@ -61,3 +61,43 @@ Proof. exact foreign_codec_refused. Qed.
 Print Assumptions C12_foreign_codec_refused.
 (* "a WAL created with a custom codec reopens with that same codec" is the OReopen case of
    seq_refinement_stmt (Props/C05.v) for every c with FirstExternalCodecID <= c_codec c. *)
+
+(* ======================================================================== *)
+(* BEGIN store/get (branch refine): corollary of the sequential refinement
+   theorem (Props/C05.v) and of decode_encode *)
+From RW Require Import Wal.Spec Wal.Hist Wal.SeqFactsMain Wal.SeqFactsCor.
+
+(* After any history, a batch of storable logs (logs_ok: every field a Go raft.Log
+   can hold, index >= 1, encoding within MaxEntrySize) that the contiguous-log
+   specification accepts is acknowledged, and GetLog of each of its indexes then
+   returns that very log: Index, Term, Type, Data, Extensions and AppendedAt. *)
+Theorem C12_store_get :
+  forall c os s0 ls, cfg_ok c -> Forall sop_ok os -> short_enough os -> initial c = Some s0 ->
+  let s1 := snd (run_model c s0 os) in
+  logs_ok ls -> frames_size ls < two30 ->
+  spec_store (sp_log (snd (run_spec spec_init os))) ls <> None ->
+  fst (step_model c s1 (OStore ls)) = ROk /\
+  forall l, In l ls -> fst (step_model c (snd (step_model c s1 (OStore ls))) (OGet (l_index l))) = RLog l.
+Proof. exact store_get. Qed.
+Print Assumptions C12_store_get.
+
+(* non-vacuity: the log of C12_ex_roundtrip's kind (zone offset with seconds, nil
+   extensions, type 255) stored after a rotation and read back *)
+Definition ex_slog (i : N) : log :=
+  {| l_index := i; l_term := 128; l_type := 255; l_data := [1; 2; 255]; l_ext := [];
+     l_time := {| t_sec := 63800000000; t_nsec := 999999999; t_zone := Some 3661%Z |} |}.
+Example C12_ex_store_get :
+  let c := {| c_seg_size := 128; c_codec := 1 |} in
+  let os := [OStore [ex_slog 3; ex_slog 4; ex_slog 5; ex_slog 6]; ODelete 3 3] in
+  let ls := [ex_slog 7; ex_slog 8] in
+  forallb log_okb ls = true /\
+  match initial c with
+  | Some s0 =>
+      let s1 := snd (run_model c s0 os) in
+      let s2 := snd (step_model c s1 (OStore ls)) in
+      (fst (step_model c s1 (OStore ls)), fst (step_model c s2 (OGet 8)), fst (step_model c s2 (OGet 3)))
+  | None => (RErrOther, RErrOther, RErrOther)
+  end = (ROk, RLog (ex_slog 8), RErrNotFound).
+Proof. vm_compute. split; reflexivity. Qed.
+(* END store/get *)
+(* ======================================================================== *)
